@@ -64,7 +64,7 @@ def judge_render(ctx, label, cases):
                 what, noinput = "rendering position %d in %r: library %s, Coq model %s" % (p, c[:60], g, m), True
         if what:
             nb += 1
-            if nb <= 30:
+            if len(ctx.violations) < 40:
                 ctx.report(what, "render:%s:%d" % (c.hex(), p), {"content_hex": c.hex(), "content": c.decode("latin1"), "position": p, "implementation": g, "model": m,
                                                                 "found_in": label}, case=(c, p), no_input=noinput)
     ctx.evaluations += len(cases)
@@ -93,7 +93,7 @@ def judge_positions(ctx, label, texts):
             what, noinput = "Check(%r): library %s, Coq model %s" % (t[:70], g, m), True
         if what:
             nb += 1
-            if nb <= 30:
+            if len(ctx.violations) < 40:
                 ctx.report(what, "jsonpos:" + t.hex(), {"text_hex": t.hex(), "text": t.decode("latin1"), "implementation": g, "model": m, "expected": want, "found_in": label},
                            case=t, no_input=noinput)
     ctx.evaluations += len(texts)
